@@ -32,7 +32,7 @@
                        C07-7): cancelling one subscription makes another one drop    -> DropJustified *)
 EXTENDS Naturals, Sequences, FiniteSets, TLC
 
-CONSTANTS Subs, K, LegacyPlainSend, LegacyNoWgLock, MutClosingFirst, MutSharedCtx
+CONSTANTS Subs, K, Closers, LegacyPlainSend, LegacyNoWgLock, MutClosingFirst, MutSharedCtx, MutEarlyReturn
 
 None == "none"
 
@@ -49,16 +49,16 @@ VARIABLES sub,        \* sub[s]   : progress of the Subscribe call: none, lock, 
           lastCtx,    \* the subscription of the latest Subscribe call (MutSharedCtx)
           closing,    \* the decorator's closing channel is closed
           wg, wgLock, \* subscribeWg counter, holder of subscribeWgLock
-          cl,         \* Close call: idle, inner, signal, lock, wait, unlock, done
+          cl,         \* cl[c]   : Close call of closer c: idle, inner, signal, lock, wait, unlock, done
           innerClosing, innerClosed,
-          counted     \* subscriptions whose Add preceded the closer's Wait
+          counted     \* counted[c] : subscriptions whose Add preceded the Wait of closer c
 vars == <<sub, inCh, left, pump, held, outCh, got, drops, reading, ctxDone, lastCtx, closing, wg, wgLock, cl, innerClosing, innerClosed, counted>>
 
 Init == /\ sub = [s \in Subs |-> "none"] /\ inCh = [s \in Subs |-> "none"] /\ left = [s \in Subs |-> K]
         /\ pump = [s \in Subs |-> "off"] /\ held = [s \in Subs |-> 0] /\ outCh = [s \in Subs |-> "open"]
         /\ got = [s \in Subs |-> << >>] /\ drops = [s \in Subs |-> {}] /\ reading = [s \in Subs |-> TRUE]
         /\ ctxDone = [s \in Subs |-> FALSE] /\ lastCtx = None /\ closing = FALSE /\ wg = 0 /\ wgLock = None
-        /\ cl = "idle" /\ innerClosing = FALSE /\ innerClosed = FALSE /\ counted = {}
+        /\ cl = [c \in Closers |-> "idle"] /\ innerClosing = FALSE /\ innerClosed = FALSE /\ counted = [c \in Closers |-> {}]
 
 U(vs) == UNCHANGED vs
 -----------------------------------------------------------------------------
@@ -113,44 +113,51 @@ PumpCloseOut(s) == /\ pump[s] = "closeout" /\ outCh' = [outCh EXCEPT ![s] = "clo
 PumpDone(s) == /\ pump[s] = "wgdone" /\ wg' = wg - 1 /\ pump' = [pump EXCEPT ![s] = "done"]
                /\ U(<<sub, inCh, left, held, outCh, got, drops, reading, ctxDone, lastCtx, closing, wgLock, cl, innerClosing, innerClosed, counted>>)
 
-\* Close
+\* Close.  Any number of Close calls may overlap (Closers): each goes through the inner subscriber's Close, the (idempotent)
+\* closing signal and the wait for the forwarding goroutines, serialised by subscribeWgLock.
 First == IF MutClosingFirst THEN "signal" ELSE "inner"
 AfterInner == IF MutClosingFirst THEN "lock" ELSE "signal"
 AfterSignal == IF MutClosingFirst THEN "inner" ELSE "lock"
-ClStart == /\ cl = "idle" /\ cl' = First
-           /\ U(<<sub, inCh, left, pump, held, outCh, got, drops, reading, ctxDone, lastCtx, closing, wg, wgLock, innerClosing, innerClosed, counted>>)
-ClInnerStart == /\ cl = "inner" /\ ~innerClosing /\ innerClosing' = TRUE
-                /\ U(<<sub, inCh, left, pump, held, outCh, got, drops, reading, ctxDone, lastCtx, closing, wg, wgLock, cl, innerClosed, counted>>)
-\* the inner Close returns when its subscriptions' channels are closed
-ClInnerDone == /\ cl = "inner" /\ innerClosing /\ \A s \in Subs : inCh[s] # "open"
-               /\ innerClosed' = TRUE /\ cl' = AfterInner
-               /\ U(<<sub, inCh, left, pump, held, outCh, got, drops, reading, ctxDone, lastCtx, closing, wg, wgLock, innerClosing, counted>>)
-ClSignal == /\ cl = "signal" /\ closing' = TRUE /\ cl' = AfterSignal
-            /\ U(<<sub, inCh, left, pump, held, outCh, got, drops, reading, ctxDone, lastCtx, wg, wgLock, innerClosing, innerClosed, counted>>)
-ClLock == /\ cl = "lock" /\ (LegacyNoWgLock \/ wgLock = None)
-          /\ wgLock' = (IF LegacyNoWgLock THEN wgLock ELSE "closer")
-          /\ cl' = "wait" /\ counted' = {s \in Subs : sub[s] \in {"unlock", "go", "returned"}}
-          /\ U(<<sub, inCh, left, pump, held, outCh, got, drops, reading, ctxDone, lastCtx, closing, wg, innerClosing, innerClosed>>)
-ClWait == /\ cl = "wait" /\ wg = 0 /\ cl' = "unlock"
-          /\ U(<<sub, inCh, left, pump, held, outCh, got, drops, reading, ctxDone, lastCtx, closing, wg, wgLock, innerClosing, innerClosed, counted>>)
-ClUnlock == /\ cl = "unlock" /\ wgLock' = (IF LegacyNoWgLock THEN wgLock ELSE None) /\ cl' = "done"
-            /\ U(<<sub, inCh, left, pump, held, outCh, got, drops, reading, ctxDone, lastCtx, closing, wg, innerClosing, innerClosed, counted>>)
+Registered == {s \in Subs : sub[s] \in {"unlock", "go", "returned"}}
+\* MutEarlyReturn: "already closing" taken for "closed" -- a later Close returns at once when the signal has been given
+ClStart(c) == /\ cl[c] = "idle"
+              /\ IF MutEarlyReturn /\ closing
+                 THEN cl' = [cl EXCEPT ![c] = "done"] /\ counted' = [counted EXCEPT ![c] = Registered]
+                 ELSE cl' = [cl EXCEPT ![c] = First] /\ U(<<counted>>)
+              /\ U(<<sub, inCh, left, pump, held, outCh, got, drops, reading, ctxDone, lastCtx, closing, wg, wgLock, innerClosing, innerClosed>>)
+ClInnerStart(c) == /\ cl[c] = "inner" /\ ~innerClosing /\ innerClosing' = TRUE
+                   /\ U(<<sub, inCh, left, pump, held, outCh, got, drops, reading, ctxDone, lastCtx, closing, wg, wgLock, cl, innerClosed, counted>>)
+\* the inner Close returns when its subscriptions' channels are closed (a repeated call finds them closed)
+ClInnerDone(c) == /\ cl[c] = "inner" /\ innerClosing /\ \A s \in Subs : inCh[s] # "open"
+                  /\ innerClosed' = TRUE /\ cl' = [cl EXCEPT ![c] = AfterInner]
+                  /\ U(<<sub, inCh, left, pump, held, outCh, got, drops, reading, ctxDone, lastCtx, closing, wg, wgLock, innerClosing, counted>>)
+ClSignal(c) == /\ cl[c] = "signal" /\ closing' = TRUE /\ cl' = [cl EXCEPT ![c] = AfterSignal]
+               /\ U(<<sub, inCh, left, pump, held, outCh, got, drops, reading, ctxDone, lastCtx, wg, wgLock, innerClosing, innerClosed, counted>>)
+ClLock(c) == /\ cl[c] = "lock" /\ (LegacyNoWgLock \/ wgLock = None)
+             /\ wgLock' = (IF LegacyNoWgLock THEN wgLock ELSE c)
+             /\ cl' = [cl EXCEPT ![c] = "wait"] /\ counted' = [counted EXCEPT ![c] = Registered]
+             /\ U(<<sub, inCh, left, pump, held, outCh, got, drops, reading, ctxDone, lastCtx, closing, wg, innerClosing, innerClosed>>)
+ClWait(c) == /\ cl[c] = "wait" /\ wg = 0 /\ cl' = [cl EXCEPT ![c] = "unlock"]
+             /\ U(<<sub, inCh, left, pump, held, outCh, got, drops, reading, ctxDone, lastCtx, closing, wg, wgLock, innerClosing, innerClosed, counted>>)
+ClUnlock(c) == /\ cl[c] = "unlock" /\ wgLock' = (IF LegacyNoWgLock THEN wgLock ELSE None) /\ cl' = [cl EXCEPT ![c] = "done"]
+               /\ U(<<sub, inCh, left, pump, held, outCh, got, drops, reading, ctxDone, lastCtx, closing, wg, innerClosing, innerClosed, counted>>)
 
 PumpStep(s) == PumpSend(s) \/ PumpDrop(s, "closing") \/ PumpDrop(s, "ctx") \/ PumpSeesClosed(s) \/ PumpCloseOut(s) \/ PumpDone(s)
 SubStep(s) == SubInner(s) \/ SubLock(s) \/ SubAdd(s) \/ SubUnlock(s) \/ SubGo(s)
-ClStep == ClStart \/ ClInnerStart \/ ClInnerDone \/ ClSignal \/ ClLock \/ ClWait \/ ClUnlock
+ClProgress(c) == ClInnerStart(c) \/ ClInnerDone(c) \/ ClSignal(c) \/ ClLock(c) \/ ClWait(c) \/ ClUnlock(c)
+ClStep(c) == ClStart(c) \/ ClProgress(c)
 Next == \/ \E s \in Subs : SubStep(s) \/ PumpStep(s) \/ InnerSend(s) \/ InnerEnd(s) \/ CtxCancel(s) \/ StopReading(s)
-        \/ ClStep
+        \/ \E c \in Closers : ClStep(c)
 Spec == Init /\ [][Next]_vars
 \* fairness: the decorator's own goroutines and the inner subscriber's duty to close; nothing is assumed of consumers or contexts
 FairSpec == /\ Spec
             /\ \A s \in Subs : WF_vars(SubStep(s)) /\ WF_vars(PumpStep(s)) /\ WF_vars(InnerEnd(s))
-            /\ WF_vars(ClInnerStart \/ ClInnerDone \/ ClSignal \/ ClLock \/ ClWait \/ ClUnlock)
+            /\ \A c \in Closers : WF_vars(ClProgress(c))
 -----------------------------------------------------------------------------
-TypeOK == /\ wg \in 0..Cardinality(Subs) /\ wgLock \in Subs \cup {"closer", None}
+TypeOK == /\ wg \in 0..Cardinality(Subs) /\ wgLock \in Subs \cup Closers \cup {None}
           /\ \A s \in Subs : held[s] \in 0..K /\ left[s] \in 0..K
 \* WaitGroup discipline: Add never runs while Wait is in progress (Go: "WaitGroup misuse" / data race)
-NoAddDuringWait == ~(cl = "wait" /\ \E s \in Subs : sub[s] = "add")
+NoAddDuringWait == ~((\E c \in Closers : cl[c] = "wait") /\ \E s \in Subs : sub[s] = "add")
 \* the closing signal is raised only after the inner subscriber is closed
 ClosingAfterInner == closing => innerClosed
 \* a message is given up only when nobody can be expected to take it: after the inner Close, or on a cancelled subscription
@@ -162,8 +169,8 @@ NothingLostSilently == \A s \in Subs : Len(got[s]) + Cardinality(drops[s]) + (IF
 \* the out channel is closed by its pump only, after the inner channel was closed
 OutClosedAfterIn == \A s \in Subs : outCh[s] = "closed" => inCh[s] = "closed"
 \* when Close has returned every forwarding goroutine that was counted is gone and its out channel closed
-CloseComplete == cl = "done" => \A s \in counted : pump[s] = "done" /\ outCh[s] = "closed"
+CloseComplete == \A c \in Closers : cl[c] = "done" => \A s \in counted[c] : pump[s] = "done" /\ outCh[s] = "closed"
 \* liveness: Close returns whatever the consumers do; a cancelled subscription's out channel gets closed
-CloseReturns == (cl # "idle") ~> (cl = "done")
+CloseReturns == \A c \in Closers : (cl[c] # "idle") ~> (cl[c] = "done")
 CancelCloses == \A s \in Subs : (ctxDone[s] /\ pump[s] # "off") ~> (outCh[s] = "closed")
 =============================================================================
